@@ -5,14 +5,19 @@ package main
 // recorded on which path), not textual, so a regeneration with the same template leaves them true.
 
 import (
+	"fmt"
 	"go/constant"
 	"go/token"
+	"go/types"
 	"strings"
 
 	"golang.org/x/tools/go/ssa"
 )
 
 func checkEngineInvariants(r *Run, prog *Program, pfx string) {
+	checkRecoverCensus(r, prog, pfx)
+	checkInputUnmodified(r, prog, pfx)
+
 	if prog.SSA == nil {
 		return
 	}
@@ -95,4 +100,78 @@ func checkEngineInvariants(r *Run, prog *Program, pfx string) {
 	_ = token.EQL
 	r.Check(pfx+".engine", "read-invalid-encoding-iff-width-1", prog.pos(rd.Pos()), okR && sawErr, "(*parser).read must record errInvalidEncoding only when utf8.DecodeRune returned (RuneError, 1): a validly encoded U+FFFD or the end of input is not an encoding error")
 	_ = ssa.Function{}
+}
+
+// checkRecoverCensus: a panic raised while parsing (the budget, an action's panic) travels up to the one deferred
+// function of (*parser).parse. Any other function of the grammar package that calls recover() can swallow it on the way:
+// the parse would go on past its budget, or an error would be lost.
+func checkRecoverCensus(r *Run, prog *Program, pfx string) {
+	parse := prog.Method(prog.GrammarSSA, "parser", "parse", true)
+	n := 0
+	for _, fn := range prog.ModuleFuncs() {
+		if fn.Pkg != prog.GrammarSSA && (fn.Parent() == nil || fn.Parent().Pkg != prog.GrammarSSA) {
+			continue
+		}
+		if !callsBuiltin(fn, "recover") {
+			continue
+		}
+		n++
+		// allowed: the function deferred by parse (a closure of parse, or a method it defers directly)
+		ok := false
+		if parse != nil {
+			for _, b := range parse.Blocks {
+				for _, ins := range b.Instrs {
+					if d, isD := ins.(*ssa.Defer); isD {
+						var f *ssa.Function
+						if mc, isMC := d.Call.Value.(*ssa.MakeClosure); isMC {
+							f, _ = mc.Fn.(*ssa.Function)
+						} else {
+							f = d.Call.StaticCallee()
+						}
+						if f == fn {
+							ok = true
+						}
+					}
+				}
+			}
+		}
+		r.Check(pfx+".engine", "recover-only-in-parse:"+fn.Name(), prog.pos(fn.Pos()), ok, fn.Name()+" calls recover(): a panic raised deeper in the parse (the expression budget, an action) can be swallowed before it reaches (*parser).parse")
+	}
+	r.Check(pfx+".engine", "recover-census", "grammar/grammar.go", n >= 1, fmt.Sprintf("info: %d functions of the grammar package call recover()", n))
+}
+
+// checkInputUnmodified: the parser reads exactly the bytes it was given: the constructor stores its input parameter itself
+// into the parser's data field, and nothing else writes that field.
+func checkInputUnmodified(r *Run, prog *Program, pfx string) {
+	np := prog.GrammarSSA.Func("newParser")
+	if np == nil {
+		r.Fail("unresolved-anchor", pfx+".engine", "newParser", "grammar/grammar.go", "newParser not found")
+		return
+	}
+	var in *ssa.Parameter
+	for _, p := range np.Params {
+		if sl, ok := p.Type().Underlying().(*types.Slice); ok {
+			if bt, ok := sl.Elem().Underlying().(*types.Basic); ok && bt.Kind() == types.Uint8 {
+				in = p
+			}
+		}
+	}
+	n := 0
+	for _, fa := range prog.FieldAccesses(prog.ModuleFuncs()) {
+		if fa.Kind != "write" || fa.Field != "data" || fa.Struct == nil || fa.Struct.Obj().Name() != "parser" || fa.Struct.Obj().Pkg().Path() != grammarPath {
+			continue
+		}
+		n++
+		ok := in != nil && ctorPart(prog, np, fa.Fn)
+		if ok {
+			v := prog.originOfParam(fa.Val, 0)
+			root := v
+			if fa.Fn == np {
+				root = fa.Val
+			}
+			ok = root == ssa.Value(in) || v == ssa.Value(in)
+		}
+		r.Check(pfx+".engine", "input-unmodified:"+fa.Fn.Name(), prog.pos(fa.Instr.Pos()), ok, "the parser's input (field data) is not the byte slice given to the constructor as it is: bytes are dropped or changed before the grammar sees them")
+	}
+	r.Check(pfx+".engine", "input-unmodified", prog.pos(np.Pos()), n == 1, fmt.Sprintf("%d writers of the parser's input field (expected one, in the constructor)", n))
 }
